@@ -668,6 +668,8 @@ SPECS["C04"]["parts"].append([dict(p) for p in SPECS["C01"]["parts"] if p["name"
 # a query that a stream listener refuses for a wrong reason (a per-connection in-flight count that never comes back) gets REFUSED where
 # C03 promises an answer: C13's framing exploration (limits, second batch on the same connection) decides that clause
 SPECS["C03"]["parts"].append([dict(p) for p in SPECS["C13"]["parts"] if p["name"] == "framing"][0])
+# ... and a query refused although its subnet's bucket is full (admission seams, recovery history)
+SPECS["C03"]["parts"].append([dict(p) for p in SPECS["C15"]["parts"] if p["name"] == "seams"][0])
 
 # C01 ("no input crashes the proxy") also covers inputs that are valid DNS but hit a size / depth boundary of the code behind the
 # decoder: the frame-size sweep of C03 and the label-depth / octet sweeps of C11 (a panic there kills the process all the same)
